@@ -27,6 +27,8 @@ pub struct Payees {
     pub p2: u8,
     pub p3: u8,
     pub p4: u8,
+    pub p5: u8,
+    pub p6: u8,
     pub far: u8,
 }
 
@@ -46,10 +48,10 @@ pub fn payees() -> &'static Payees {
         let close = rig.driver.verif_closest_k_value_local_peers();
         let inside: Vec<u8> = known.iter().cloned().filter(|id| close.contains(&rigs::fixtures::peer_id(*id))).collect();
         let outside: Vec<u8> = known.iter().cloned().filter(|id| !close.contains(&rigs::fixtures::peer_id(*id))).collect();
-        assert!(inside.len() >= 3 && !outside.is_empty(), "probe: {} close, {} far", inside.len(), outside.len());
+        assert!(inside.len() >= 5 && !outside.is_empty(), "probe: {} close, {} far", inside.len(), outside.len());
         drop(rig);
         let _ = std::fs::remove_dir_all(&root);
-        Payees { p2: inside[0], p3: inside[1], p4: inside[2], far: outside[0] }
+        Payees { p2: inside[0], p3: inside[1], p4: inside[2], p5: inside[3], p6: inside[4], far: outside[0] }
     })
 }
 
@@ -78,7 +80,10 @@ pub struct Case {
     /// among its K closest, instead of a complete stranger
     pub far_known: bool,
     pub age: usize,      // 0 fresh, 1 two hours old, 2 one hour in the future
-    pub chain: usize,    // 0 paid, 1 unpaid, 2 rpc error, 3 http 503, 4 http 429, 5 connection closed
+    /// 0 paid, 1 unpaid (this node's quote), 2 rpc error, 3 http 503, 4 http 429, 5 connection closed, 6 another payee's quote
+    /// reported unpaid (this node's own reported paid), 7 a proof of five quotes with this node's last: the contract reports on
+    /// three quotes, the first three, all unpaid
+    pub chain: usize,
     pub own_quote_for_address: bool,
     /// when the own quote names another address: the all-zero content (what the node signs for an address kind that has no name)
     pub own_quote_zero: bool,
@@ -158,21 +163,37 @@ pub fn build_proof(c: &Case, key: &RecordKey) -> (ant_evm::ProofOfPayment, Vec<[
         _ => {}
     }
     let q3 = rec::quote(third, addr, ts_of(0));
-    let hashes = vec![own_q.hash().0, q2.hash().0, q3.hash().0];
+    // the quote hashes the contract reports as unpaid in this case
+    let mut unpaid = match c.chain {
+        1 => vec![own_q.hash().0],
+        6 => vec![q3.hash().0],
+        _ => vec![],
+    };
+    let mut entries = vec![(own, own_q)];
     if c.sig == 3 {
         // peer 2 listed twice: a quote that does not verify for it, followed by a genuine one
         let mut bad = rec::quote(pp.p2, addr, other_ts);
         bad.signature[7] ^= 0x01;
-        return (rec::proof(vec![(own, own_q), (listed2, bad), (listed2, q2), (third, q3)]), hashes);
+        entries.push((listed2, bad));
     }
-    (rec::proof(vec![(own, own_q), (listed2, q2), (third, q3)]), hashes)
+    entries.push((listed2, q2));
+    entries.push((third, q3));
+    if c.chain == 7 {
+        // five (or more) quotes, this node's own last; the contract's answer has room for three
+        let own_entry = entries.remove(0);
+        entries.push((pp.p5, rec::quote(pp.p5, addr, ts_of(0))));
+        entries.push((pp.p6, rec::quote(pp.p6, addr, ts_of(0))));
+        entries.push(own_entry);
+        unpaid = entries.iter().take(3).map(|(_, q)| q.hash().0).collect();
+    }
+    (rec::proof(entries), unpaid)
 }
 
 fn describe(c: &Case) -> serde_json::Value {
     json!({"kind": format!("{:?}", c.kind), "prior": format!("{:?}", c.prior),
         "signatures": (["authentic", "one forged", "one signed by another key", "a payee listed twice, its first quote forged"][c.sig]), "self_among_payees": c.self_payee, "all_payees_close": c.all_close, "odd_payee": (if c.all_close { "-" } else if c.far_known { "known but outside the K closest" } else { "stranger" }),
         "age": (["fresh", "2h old", "1h in the future"][c.age]), "age_defect_on_own_quote": c.age_on_own,
-        "chain": (["paid", "unpaid", "rpc error", "http 503 on every attempt", "http 429 on every attempt", "connection closed on every attempt"][c.chain]), "own_quote_for_this_address": c.own_quote_for_address, "own_quote_content_all_zero": c.own_quote_zero})
+        "chain": (["paid", "unpaid", "rpc error", "http 503 on every attempt", "http 429 on every attempt", "connection closed on every attempt", "another payee's quote reported unpaid, this node's paid", "five quotes, this node's last; the contract reports the first three, unpaid"][c.chain]), "own_quote_for_this_address": c.own_quote_for_address, "own_quote_content_all_zero": c.own_quote_zero})
 }
 
 fn stored_matches(kind: Kind, stored: &[u8], up: &Upload) -> bool {
@@ -212,7 +233,7 @@ pub fn run_case(run: &Run, stub: &Arc<EvmStub>, c: &Case) {
     let (proof, hashes) = build_proof(c, &up.key);
     match c.chain {
         0 => stub.set(Chain::Paid),
-        1 => stub.set_unpaid_hashes(&hashes[..1]),
+        1 | 6 | 7 => stub.set_unpaid_hashes(&hashes),
         2 => stub.set(Chain::RpcError),
         3 => stub.set(Chain::Http503),
         4 => stub.set(Chain::Http429),
@@ -327,7 +348,7 @@ fn unpaid_cases(run: &Run, stub: &Arc<EvmStub>) {
 
 pub fn cases(quick: bool) -> Vec<Case> {
     let mut v = vec![];
-    enumerate::product(&[4, 2, 3, 3, 6, 3, 4, 3, 2], |ix| {
+    enumerate::product(&[4, 2, 3, 3, 8, 3, 4, 3, 2], |ix| {
         let c = Case { sig: ix[0], self_payee: ix[1] == 0, all_close: ix[2] == 0, far_known: ix[2] == 2, age: ix[3], chain: ix[4], own_quote_for_address: ix[5] == 0, own_quote_zero: ix[5] == 2, kind: KINDS[ix[6]], prior: [Prior::Absent, Prior::SameVersion, Prior::OtherVersion][ix[7]], age_on_own: ix[8] == 1 };
         if c.age == 0 && c.age_on_own {
             return; // no age defect: the placement flag is irrelevant
@@ -357,7 +378,7 @@ pub fn main(tier: Option<&str>) {
     let run = Run::new("C03", "model_checking", tier);
     run.rule(
         "product of six payment conditions (signatures 4 (incl. a payee listed twice with a forged first quote) x self-payee 2 x closeness 3 (all close / a stranger / a routing-table peer outside the K closest, on a node that knows 44 peers) x age 3 (on another payee's or on the own quote) x \
-         chain answer 6 (paid, unpaid, JSON-RPC error, HTTP 503 / 429 / connection closed on every attempt) x quoted address 3 (this address, another address, the all-zero content)) x kind 4 x prior content 3; quick = full product for chunks on an empty store + every single \
+         chain answer 8 (paid, this node's quote unpaid, JSON-RPC error, HTTP 503 / 429 / connection closed on every attempt, another payee's quote unpaid while this node's is paid, a five-quote proof of whose first three quotes — none this node's — the contract reports: unpaid) x quoted address 3 (this address, another address, the all-zero content)) x kind 4 x prior content 3; quick = full product for chunks on an empty store + every single \
          and double fault for the other kinds + single faults on held keys, thorough = full product. Each case runs the real \
          Node::validate_and_store_record on a fresh real SwarmDriver under the default (FIFO) schedule to quiescence, the payment \
          contract answered by a loopback JSON-RPC stub. Plus every unpaid kind x prior content. Non-trivial = at least one condition \
